@@ -12,6 +12,6 @@ CONSTANTS MaxOrd = 2
 INIT SimInit
 NEXT SimNext
 INVARIANT Emit
-INVARIANT Quiescent
-INVARIANT Census12
+INVARIANT StatusTruth
+INVARIANT QuietPods
 CHECK_DEADLOCK FALSE
